@@ -220,6 +220,32 @@ def element(r, group, angle_only=None, lin_only=None, norm="valid"):
     return out, tags
 
 
+def nudge(r, group, a):
+    """an element close to `a` but different from it: every rotation part turned by a small angle
+    (1e-9 .. 1e-5 rad), every linear part moved by a small amount.  -> (coeffs, tags)"""
+    g = GROUPS[group]
+    out, i = [], 0
+    e = 10.0 ** r.uniform(-9, -5)
+    for kind, n in g["rep"]:
+        c = a[i:i + n]
+        if kind == "complex":
+            ce, se = math.cos(e), math.sin(e)
+            out += [c[0] * ce - c[1] * se, c[1] * ce + c[0] * se]
+        elif kind == "quat":
+            d, _ = direction(r, 3)
+            sh, ch = math.sin(e / 2), math.cos(e / 2)
+            px, py, pz, pw = c
+            qx, qy, qz, qw = sh * d[0], sh * d[1], sh * d[2], ch
+            out += [pw * qx + px * qw + py * qz - pz * qy, pw * qy + py * qw + pz * qx - px * qz,
+                    pw * qz + pz * qw + px * qy - py * qx, pw * qw - px * qx - py * qy - pz * qz]
+        else:
+            m = r.choice([0.0, 10.0 ** r.uniform(-9, -4)])
+            d, _ = direction(r, n)
+            out += [x + m * y for x, y in zip(c, d)]
+        i += n
+    return out, ["near:%.0e" % e]
+
+
 def _denorm(r, c, norm):
     if norm == "exact":
         return c, ""
